@@ -428,7 +428,17 @@ def auto(o1: int, o2: int, o3: int, o4: int, exit_kind: int, ansi: bool, pre_spi
     post: _
     """
     ops = [BODY_OPS[conc_int(o, 0, 3)] for o in (o1, o2, o3, o4)][: PART["n"]]
-    return untraced(_auto_case, ops, conc_int(exit_kind, 0, 2), conc_bool(ansi), conc_int(pre_spins, 0, 2), conc_int(interval_s, 1, 2), conc_bool(inflight), "EMPTY" if conc_bool(empty_end) else "")
+    return untraced(_auto_guarded, ops, conc_int(exit_kind, 0, 2), conc_bool(ansi), conc_int(pre_spins, 0, 2), conc_int(interval_s, 1, 2), conc_bool(inflight), "EMPTY" if conc_bool(empty_end) else "")
+
+
+def _auto_guarded(*args):
+    # leaving the automatic mode must TERMINATE: a schedule in which the caller and the spinner wait for each other is a violation, not a hang of the check
+    from vf.sym import DeadlineExceeded, deadline
+    try:
+        with deadline(10):
+            return _auto_case(*args)
+    except DeadlineExceeded:
+        return False
 
 
 def auto_twin(o1: int, o2: int, o3: int, o4: int, exit_kind: int, ansi: bool, pre_spins: int, interval_s: int) -> bool:
